@@ -159,6 +159,26 @@ CLAIMED = {
          'the proof covers layout selection and routing (the logic), not LAPACK / pentapy / numba themselves.'),
    technique='Lean 4 proof of solver routing and per-route band denotation (all 8 solver x pentapy configurations) + 16-configuration differential execution in import-blocked worker processes',
    design='4.C10'),
+ 'C04': dict(
+   text=('Lean 4 theorems (PbVerif.Props.C04) about interleaving models of the shared-state protocols, for ANY number of threads and '
+         'EVERY schedule (invariant proofs over the generic runSched): first call on a fitter created without x (1-D: size, shape, then '
+         'x; 2-D for each of the four ways x / z are given: complete shape, size, then z, x) never fails; the 1-D and the 2-D '
+         'Vandermonde / pseudo-inverse caches (cold, or warmed by ANY earlier parameters) give every call with the same parameters '
+         'its serial outcome (no error, every use sees its own Vandermonde, the returned pseudo-inverse is its own); spline-basis '
+         'cache (whole-object publication); every call terminates within a bounded number of its own steps; negative theorems with '
+         'witness schedules: the publication orders before the repairs fail, and different polynomial orders on one object (what '
+         'adaptive_minmax did within one call) break a call. Correspondence: (a) single-thread access traces of every public '
+         'method / start state against the model programs (and any write to a shared field the models do not cover is reported); '
+         '(b) a deterministic scheduler runs REAL threads through thousands of interleavings per run (pre-emption before every access '
+         'to state reachable from the shared object; every early single pre-emption point, random double pre-emptions, random 3-thread '
+         'schedules; created with / without x; cold / warm / differently-warm caches) and compares every outcome bit-for-bit with the '
+         'serial one; (c) model schedules, incl. the negative witnesses, replayed on the real polynomial cache: predicted vs real outcome.'),
+   note=('Trusted: Lean kernel; axioms propext, Classical.choice, Quot.sound; harness. PARTIAL with respect to the runtime: values '
+         'are abstracted by provenance; pre-emption inside NumPy / LAPACK calls on thread-private arrays, the free-threaded build\'s '
+         'memory model beyond sequentially consistent attribute accesses, and the idempotent _validated_x / _validated_z flags are '
+         'argued, not modelled. Methods whose cache traffic is not one of the proven programs are covered by scheduler exploration only.'),
+   technique='Lean 4 invariant proofs over an interleaving semantics of the shared-cache protocols (any thread count, any schedule) + access-trace correspondence + deterministic real-thread scheduler exploration',
+   design='4.C04'),
  'C08': dict(
    text=('Lean 4 theorems (PbVerif.Props.C08) in exact rationals: coefficients converted by _poly_transform_matrix/_convert_coef evaluate '
          'to the fitted polynomial for EVERY domain, order and x (binomial theorem), incl. the special-cased offset == 0 branch; the 2-D '
